@@ -153,6 +153,26 @@ theorem operators_add_sub (B : Nat) (m : Mode) (c : Coarse) (dub : Int → Nat) 
     ROUNDED `12e3` for the operators as for `Context::add` (it was the unrounded 12345 before the fix) -/
 example : opAddSub 10 .halfEven coarseNone (fun v => digitsI 10 v) 2 ⟨0, 0⟩ ⟨12345, 0⟩ 1 = ⟨12, 3⟩ := by decide +kernel
 
+/-- **the operators `a + b` / `a - b`** (all ownership and assign forms, `opAddSub` at the `Context::max` precision `p`)
+    honour the rounding contract for all operands that fit `p`: the value they return is the value of a contract-meeting
+    `Rounded` result (the operators drop the flag, so it is existentially quantified), and a sum representable in `p`
+    digits is returned exactly. -/
+theorem operators_add_sub_contract (B : Nat) (hB : 2 ≤ B) (m : Mode) (c : Coarse) (hc : CoarseSound c)
+    (dub : Int → Nat) (hdub : DubSound B dub) (p : Nat) (hp : 1 ≤ p) (lhs rhs : FRepr) (rs : Int)
+    (hrs : rs = 1 ∨ rs = -1) (hl : Normalized B lhs) (hr : Normalized B rhs)
+    (hwl : lhs.signif = 0 → lhs.exp = 0) (hwr : rhs.signif = 0 → rhs.exp = 0)
+    (hld : lhs.digits B ≤ p) (hrd : rhs.digits B ≤ p) :
+    (∃ flag, Contract B m p (lhs.toRat B + (rs : ℚ) * rhs.toRat B) ((opAddSub B m c dub p lhs rhs rs).toRat B) flag) ∧
+    (Representable B p (lhs.toRat B + (rs : ℚ) * rhs.toRat B) →
+      (opAddSub B m c dub p lhs rhs rs).toRat B = lhs.toRat B + (rs : ℚ) * rhs.toRat B) := by
+  rw [operators_add_sub B m c dub p lhs rhs rs hrs]
+  have h := add_sub_contract B hB m c hc dub hdub p hp lhs rhs rs hrs hl hr hwl hwr hld hrd
+  exact ⟨⟨_, h⟩, fun hrep => (h.representable_exact hB hrep).1⟩
+
+/-- non-vacuity: `1.01e3 − 1.99e1` at 3 digits (HalfEven) through the operator = 990 (the hypotheses are those of the
+    `add_sub_contract` example below) -/
+example : opAddSub 10 .halfEven coarseNone (digitsI 10) 3 ⟨101, 1⟩ ⟨199, -1⟩ (-1) = ⟨99, 1⟩ := by decide +kernel
+
 /-- `Context::repr_round_sum(signif, exp, (low, lk), is_sub)` in general: the contract for the exact value
     `(signif·B^lk + low)·B^(exp − lk)` under the guard-digit hypothesis `hguard` — which the four
     alignment branches establish for operands that fit `p`, and which fails for longer Reprs. -/
@@ -379,6 +399,37 @@ theorem div_representable_exact (B : Nat) (hB : 2 ≤ B) (m : Mode) (p : Nat) (h
   obtain ⟨r, h1, h2⟩ := reprDiv_contract B hB m p hp lhs rhs hb
   exact ⟨r, h1, h2.representable_exact hB hrep⟩
 
+/-! round 7: the same clause for the `Context` methods AS THEY ARE (`fixed = false`, `ctxDiv`) on operands that fit -/
+
+/-- closing clause 1 for `Context::mul` as it is (operands of at most `2p` digits — all that fit `p`) -/
+theorem ctx_mul_representable_exact (B : Nat) (hB : 2 ≤ B) (m : Mode) (c : Coarse) (hc : CoarseSound c)
+    (p : Nat) (hp : 1 ≤ p) (a b : FRepr) (ha : a.digits B ≤ 2 * p) (hb : b.digits B ≤ 2 * p)
+    (hrep : Representable B p (a.toRat B * b.toRat B)) :
+    (ctxMul false B m c p a b).1.toRat B = a.toRat B * b.toRat B ∧ (ctxMul false B m c p a b).2 = none :=
+  (mul_contract_partial B hB m c hc p hp a b ha hb).representable_exact hB hrep
+
+/-- … for `Context::sqr` as it is -/
+theorem ctx_sqr_representable_exact (B : Nat) (hB : 2 ≤ B) (m : Mode) (c : Coarse) (hc : CoarseSound c)
+    (p : Nat) (hp : 1 ≤ p) (a : FRepr) (ha : a.digits B ≤ 2 * p)
+    (hrep : Representable B p (a.toRat B * a.toRat B)) :
+    (ctxSqr false B m c p a).1.toRat B = a.toRat B * a.toRat B ∧ (ctxSqr false B m c p a).2 = none :=
+  (sqr_contract_partial B hB m c hc p hp a ha).representable_exact hB hrep
+
+/-- … for `Context::cubic` as it is -/
+theorem ctx_cubic_representable_exact (B : Nat) (hB : 2 ≤ B) (m : Mode) (c : Coarse) (hc : CoarseSound c)
+    (p : Nat) (hp : 1 ≤ p) (a : FRepr) (ha : a.digits B ≤ 3 * p)
+    (hrep : Representable B p (a.toRat B * a.toRat B * a.toRat B)) :
+    (ctxCubic false B m c p a).1.toRat B = a.toRat B * a.toRat B * a.toRat B ∧ (ctxCubic false B m c p a).2 = none :=
+  (cubic_contract_partial B hB m c hc p hp a ha).representable_exact hB hrep
+
+/-- … for `Context::div` (dividends that fit) -/
+theorem ctx_div_representable_exact (B : Nat) (hB : 2 ≤ B) (m : Mode) (c : Coarse) (dub dlb : Int → Nat)
+    (p : Nat) (hp : 1 ≤ p) (lhs rhs : FRepr) (hb : rhs.signif ≠ 0) (hfit : lhs.digits B ≤ rhs.digits B + p)
+    (hrep : Representable B p (lhs.toRat B / rhs.toRat B)) :
+    ∃ r, ctxDiv B m c dub dlb p lhs rhs = .ok r ∧ r.1.toRat B = lhs.toRat B / rhs.toRat B ∧ r.2 = none := by
+  obtain ⟨r, h1, h2⟩ := ctx_div_contract_partial B hB m c dub dlb p hp lhs rhs hb hfit
+  exact ⟨r, h1, h2.representable_exact hB hrep⟩
+
 theorem sqrt_representable_exact (B : Nat) (hB : 2 ≤ B) (m : Mode) (c : Coarse) (sr : Nat → Nat × Nat)
     (hsr : SqrtRemOk sr) (p : Nat) (hp : 1 ≤ p)
     (x : FRepr) (hs : 0 ≤ x.signif) (w : ℚ) (hw0 : 0 ≤ w) (hrep : Representable B p w)
@@ -427,6 +478,43 @@ theorem div_digits (B : Nat) (hB : 2 ≤ B) (m : Mode) (p : Nat) (hp : 1 ≤ p) 
         r.1.digits B ≤ p) :=
   reprDiv_digits_le B hB m p hp lhs rhs hb hfit
 
+/-! round 7: the digit clause for `Context::div` itself -/
+
+/-- **`Context::div`, digit clause with NO fit hypothesis**: for every dividend (of any length), every non-zero
+    divisor and every sound pair of digit estimators the quotient carries at most `p+1` digits — an over-long
+    dividend is pre-shrunk to `rhs.digits + p` digits, a dividend that is not pre-shrunk has at most that many. -/
+theorem ctx_div_digits_all (B : Nat) (hB : 2 ≤ B) (m : Mode) (c : Coarse) (dub dlb : Int → Nat)
+    (hdub : DubSound B dub) (hdlb : DlbSound B dlb) (p : Nat) (hp : 1 ≤ p) (lhs rhs : FRepr) (hb : rhs.signif ≠ 0) :
+    ∃ r, ctxDiv B m c dub dlb p lhs rhs = .ok r ∧ r.1.digits B ≤ p + 1 := by
+  unfold ctxDiv
+  split
+  · obtain ⟨r, h1, h2, _⟩ := reprDiv_digits_le B hB m p hp (reprRound B m c (rhs.digits B + p) lhs).1 rhs hb
+      (reprRound_digits_le B hB m c (rhs.digits B + p) (by omega) lhs)
+    exact ⟨r, h1, h2⟩
+  · rename_i hns
+    have hfit : lhs.digits B ≤ rhs.digits B + p := by
+      by_cases hz : lhs.isZero = true
+      · have h0 : lhs.signif = 0 := by
+          unfold FRepr.isZero at hz
+          simp only [Bool.and_eq_true, beq_iff_eq] at hz
+          exact hz.1
+        unfold FRepr.digits; rw [h0, digitsI_zero]; omega
+      · have h1 : ¬ (dub lhs.signif > dlb rhs.signif + p) := fun h => hns ⟨hz, h⟩
+        have h2 := hdub lhs.signif
+        have h3 := hdlb rhs.signif
+        unfold FRepr.digits; omega
+    obtain ⟨r, h1, h2, _⟩ := reprDiv_digits_le B hB m p hp lhs rhs hb hfit
+    exact ⟨r, h1, h2⟩
+
+/-- `Context::div` for dividends that fit (`≤ rhs.digits + p` digits): the full digit clause of `div_digits` -/
+theorem ctx_div_digits (B : Nat) (hB : 2 ≤ B) (m : Mode) (c : Coarse) (dub dlb : Int → Nat) (p : Nat) (hp : 1 ≤ p)
+    (lhs rhs : FRepr) (hb : rhs.signif ≠ 0) (hfit : lhs.digits B ≤ rhs.digits B + p) :
+    ∃ r, ctxDiv B m c dub dlb p lhs rhs = .ok r ∧ r.1.digits B ≤ p + 1 ∧
+      (Int.tdiv lhs.signif rhs.signif ≠ 0 → |Int.tdiv lhs.signif rhs.signif| < ((B ^ p : Nat) : Int) →
+        r.1.digits B ≤ p) := by
+  rw [ctxDiv_noshrink B m c dub dlb p lhs rhs hfit]
+  exact reprDiv_digits_le B hB m p hp lhs rhs hb hfit
+
 /-! ### non-vacuity -/
 
 -- 9.9 × 9.9 = 98.01 at 2 digits, HalfAway: 98 (NoOp); the operands fit p
@@ -460,6 +548,21 @@ example : reprDiv 10 .zero 2 ⟨2, 0⟩ ⟨13, 0⟩ = .ok (⟨153, -3⟩, some .
     reprDiv 10 .zero 2 ⟨26, 0⟩ ⟨13, 0⟩ = .ok (⟨2, 0⟩, none) := by decide +kernel
 -- … and in a subtraction: 12e10 − 1 at 2 digits (mode Zero) keeps the guard digit: 119e9
 example : ctxAddSub 10 .zero coarseNone (digitsI 10) 2 ⟨12, 10⟩ ⟨1, 0⟩ (-1) = (⟨119, 9⟩, some .SubOne) := by
+  decide +kernel
+
+/-- non-vacuity of `ctx_div_digits_all` OUTSIDE the fit region (the dividend IS pre-shrunk), and the `p+1`-st digit does
+    occur there: `200456 / 13` at 2 digits, base 10, mode Zero: 6 digits > 2 + 2, dividend pre-rounded to `2004e2`,
+    quotient `154e2` (3 = p+1 digits); the exact estimators are sound -/
+example : DubSound 10 (digitsI 10) ∧ DlbSound 10 (digitsI 10) ∧
+    (⟨200456, 0⟩ : FRepr).digits 10 > (⟨13, 0⟩ : FRepr).digits 10 + 2 ∧
+    ctxDiv 10 .zero coarseNone (digitsI 10) (digitsI 10) 2 ⟨200456, 0⟩ ⟨13, 0⟩ = .ok (⟨154, 2⟩, some .NoOp) :=
+  ⟨fun _ => le_refl _, fun _ => le_refl _, by decide +kernel, by decide +kernel⟩
+
+/-- non-vacuity of the `Context` instances of closing clause 1: `1.2 × 0.5`, `0.5²`, `0.2³`, `2.6 / 1.3` at 2 digits -/
+example : ctxMul false 10 .up coarseNone 2 ⟨12, -1⟩ ⟨5, -1⟩ = (⟨6, -1⟩, none) ∧
+    ctxSqr false 10 .up coarseNone 2 ⟨5, -1⟩ = (⟨25, -2⟩, none) ∧
+    ctxCubic false 10 .up coarseNone 2 ⟨2, -1⟩ = (⟨8, -3⟩, none) ∧
+    ctxDiv 10 .up coarseNone (digitsI 10) (digitsI 10) 2 ⟨26, -1⟩ ⟨13, -1⟩ = .ok (⟨2, 0⟩, none) := by
   decide +kernel
 
 end Dashu.Props.C03
